@@ -53,7 +53,7 @@ Set(t, p, v) ==
   IF p = <<>> THEN v
   ELSE LET e == Head(p) IN
     IF e.t = "self" THEN v
-    ELSE IF t.k = "null" THEN Default(p, v)
+    ELSE IF t.k = "null" THEN (IF e.t = "skip" THEN t ELSE Default(p, v))     \* an ignored output leaves the empty record empty
     ELSE IF t.k = "leaf" THEN ERRT                        \* "Insert to immutable"
     ELSE IF e.t = "skip" THEN t
     ELSE IF t.k \in {"list", "tuple"} THEN
